@@ -19,7 +19,7 @@ RULE = ("Generated: tensor_factorizations.cp / tucker (shape 2..4 modes of size 
         "pgms.hmm (any permutation as ordering, latent states 1..3, categorical / binomial / Gaussian inputs, "
         "per-variable input_layer_kwargs with DIFFERENT arguments per variable) and pgms.fully_factorized likewise; "
         "logic circuits: deterministic decomposable formulas on a drawn vtree (decision nodes whose primes are an "
-        "exclusive and exhaustive family, arbitrary subs, TOP / BOTTOM leaves, 10% untrimmed), given as LogicalCircuit "
+        "exclusive and exhaustive family, arbitrary subs, TOP / BOTTOM leaves, (p and TOP) also compressed to p, disjunctions nested directly in disjunctions over more variables, 10% untrimmed), given as LogicalCircuit "
         "node graphs and as .sdd text through SDD.load; x fold x optimize x semiring x values. Oracle: the documented "
         "formula coded independently with numpy (einsum CP / Tucker contraction, left-to-right TT matrix chain, "
         "forward algorithm along the ordering, product of per-variable pmfs, a recursive truth-table evaluator and "
@@ -47,7 +47,7 @@ def _partition(draw, vs, depth=0):
     out = []
     for p in P1:
         for q in _partition(draw, vs[k:], depth + 1):
-            out.append(["and", p, q])
+            out.append(p if q[0] == "top" and draw(st.integers(0, 3)) else ["and", p, q])
     # merge some cells (a deterministic OR of exclusive formulas)
     while len(out) > 2 and draw(st.booleans()):
         i = draw(st.integers(0, len(out) - 2))
@@ -62,7 +62,7 @@ def _formula(draw, vs, depth, trimmed):
         return draw(st.sampled_from([["lit", vs[0], True], ["lit", vs[0], False]]))
     if depth <= 0:
         return ["and"] + [["lit", v, draw(st.booleans())] for v in vs]
-    k = draw(st.integers(1, len(vs) - 1))
+    k = max(draw(st.integers(1, len(vs) - 1)), draw(st.integers(1, len(vs) - 1)))  # more primes more often
     L, R = vs[:k], vs[k:]
     primes = _partition(draw, L)
     if trimmed and len(primes) == 1:  # a single TOP prime: the decision node would be trimmed away
@@ -79,7 +79,15 @@ def _formula(draw, vs, depth, trimmed):
             subs.append(_formula(draw, R, depth - 1, trimmed))
     if trimmed and all(s[0] in ("top", "bot") for s in subs):
         subs[draw(st.integers(0, len(subs) - 1))] = _formula(draw, R, depth - 1, trimmed)
-    return ["or"] + [["and", p, s] for p, s in zip(primes, subs)]
+    # a TOP sub is written either as (p and TOP) or, compressed, as p alone
+    elems = [p if s[0] == "top" and draw(st.integers(0, 3)) else ["and", p, s] for p, s in zip(primes, subs)]
+    # disjunctions nested directly in a disjunction (the inner one usually mentions fewer variables)
+    while len(elems) > 2 and draw(st.booleans()):
+        i = draw(st.integers(0, len(elems) - 2))
+        a = elems.pop(i)
+        b = elems.pop(i)
+        elems.insert(i, ["or", a, b])
+    return ["or"] + elems
 
 
 def feval(f, x):
@@ -485,7 +493,21 @@ def _run_logic(c):
             return 0
         return (1 if g[0] == "or" else 0) + max(levels(h) for h in g[1:])
 
+    def fscope(g):
+        if g[0] == "lit":
+            return {g[1]}
+        return set().union(*[fscope(h) for h in g[1:]]) if len(g) > 1 else set()
+
+    def nested_or(g):
+        if g[0] in ("top", "bot", "lit"):
+            return False
+        if g[0] == "or" and any(h[0] == "or" and fscope(h) < fscope(g) for h in g[1:]):
+            return True
+        return any(nested_or(h) for h in g[1:])
+
     classes = [f"kind:{c['kind']}", f"nv:{nv}", f"trimmed:{c['trimmed']}", f"scope-size:{len(scope)}"]
+    if nested_or(f):
+        classes.append("or-input-of-or-with-smaller-scope")
     if has_const(f):
         classes.append("has-top/bottom-leaf")
     return {"nontrivial": nv >= 3 and (has_const(f) or levels(f) >= 2), "classes": classes}
